@@ -28,6 +28,8 @@ R2_INV = {
     "C04": ["C04_JEmpty", "C04_JSplit"],
     "C05": ["C05_Rows", "C05_Flush", "C05_OnTime", "C05_Bound", "C05_NotEarly"],
 }
+R2_INV["C10"] = ["C10_StartupNoop", "C04_JEmpty"]
+R1_INV["C10"] = ["C10_StartupNoop"]
 R2_PROP = {"C01": ["C01_Balance", "C01_Global", "C01_FlushConserves"], "C04": ["C01_FlushConserves"]}
 
 
